@@ -305,7 +305,7 @@ def family_multi(thorough):
 
 
 # ---------------------------------------------------------------------------------------------- family: environments
-E_MODES = ('default', 'same', 'other', 'fwd', 'empty', 'none')
+E_MODES = ('default', 'same', 'other', 'other-value', 'fwd', 'empty', 'none')
 
 
 def _env_args(mode):
@@ -315,6 +315,8 @@ def _env_args(mode):
         return {'env': {'A': 'b'}}
     if mode == 'other':
         return {'env': {'X': 'y', 'N': 1}}
+    if mode == 'other-value':
+        return {'env': {'A': 'c'}}
     if mode == 'fwd':
         return {'env': '%(e)s'}
     if mode == 'empty':
@@ -332,8 +334,8 @@ def family_environments(thorough):
             for top in ('default', 'given'):
                 Wa = wf('Wa', [('e', {'Q': 'wa'})], [('p', 'P', dict(_env_args(m2), m='deep'))])
                 main = wf('main', [('e', {'Q': 'main'})], [('p', 'P', dict(_env_args(m1), m='top')),
-                                                          ('w', 'Wa', {'e': '%(e)s'} if m2 == 'fwd' else {})])
-                eargs = {} if top == 'default' else {'e': {'A': 'b'}}
+                                                          ('w', 'Wa', {'e': '%(e)s'} if (m2 == 'fwd' and top == 'given') else {})])
+                eargs = {} if top == 'default' else {'e': {'Q': 'entry'}}
                 yield item('environments', '%s-%s-%s' % (m1, m2, top), ns('main', eargs, [main, Wa], [P]),
                            rep=(m1 == 'fwd' and m2 == 'fwd' and top == 'given'))
 
@@ -582,6 +584,6 @@ def canon(doc):
 
 
 def base_items(thorough):
-    for fam in (family_multi, family_literals, family_environments, family_references, family_names, family_cycles):
+    for fam in (family_multi, family_cycles, family_environments, family_literals, family_references, family_names):
         for it in fam(thorough):
             yield it
